@@ -8,7 +8,7 @@ from typing import Dict, List, Optional, Tuple
 
 from ..defuse import assignments
 from ..model import AnalysisError, AstClass, Func, Program, Unresolvable, norm, parent, short, walk_own, walk_body
-from ..pathcond import Lit, PathAnalysis, entails, world_has
+from ..pathcond import Lit, PathAnalysis, entails, plain, world_has
 from ..report import Result
 
 DECLARATIVE = {"ZeroOrOne": (0, 1), "ZeroOrMany": (0, "inf"), "OneOrMany": (1, "inf"), "plain": (1, 1)}
@@ -62,7 +62,7 @@ def _class_of_value(e: ast.AST) -> Optional[str]:
     return None
 
 
-LATER_RULES = ' Later rules: (R12.6) hand-written visit_K methods of the template compiler pass all fields of K; (R12.7) the pattern list is matched as given; (R12.8) a wildcard never matches an absent child; (R12.9) leaf values are compared type-strictly.'
+LATER_RULES = ' Later rules: (R12.6) hand-written visit_K methods of the template compiler pass all fields of K, empty ones included; (R12.7) the pattern list is matched as given; (R12.8) a wildcard never matches an absent child; (R12.9) leaf values are compared type-strictly.'
 
 
 def check(prog: Program, tier: str) -> Result:
@@ -336,25 +336,89 @@ def _r12_3(prog: Program, res: Result) -> None:
             res.undecided("R12.3", fn.loc(), fn.fq, "default ignore", str(error))
     # _match_template_vars compares every template field outside ignore
     fn2 = prog.func("core", "_match_template_vars")
+    params = [a.arg for a in fn2.node.args.args]
+    role = {}           # local name -> "n" (fields of the node) / "t" (fields of the template)
+    for st in walk_own(fn2.node):
+        if isinstance(st, ast.Assign) and isinstance(st.targets[0], ast.Name) and isinstance(st.value, ast.Call) \
+                and norm(st.value.func) == "vars" and st.value.args and isinstance(st.value.args[0], ast.Name) and st.value.args[0].id in params[:2]:
+            role[st.targets[0].id] = "nt"[params.index(st.value.args[0].id)]
+    ig = params[2] if len(params) > 2 else "ignore"
+
+    def canon(e: ast.AST) -> str:
+        text = norm(e)
+        for name, r in role.items():
+            text = re.sub(rf"(?<![\w.]){re.escape(name)}(?![\w])", f"<{r}>", text)
+        return re.sub(rf"(?<![\w.]){re.escape(ig)}(?![\w])", "<ig>", text).replace(" ", "")
+
+    def canon_text(text: str) -> str:
+        for name, r in role.items():
+            text = re.sub(rf"(?<![\w.]){re.escape(name)}(?![\w])", f"<{r}>", text)
+        return text.replace(" ", "")
+
+    def empty_test(e: ast.AST, key: str) -> bool:
+        """`e` says that the template's value for `key` is the empty child: None or []."""
+        forms = {f"<t>[{key}]isNone", f"<t>[{key}]==[]", f"not<t>[{key}]"}
+        if isinstance(e, ast.BoolOp) and isinstance(e.op, ast.Or):
+            return all(canon(v) in forms for v in e.values)
+        return canon(e) in forms
+
+    # (a) a template field that the node lacks fails the match - unless the template has the empty child there (None, []):
+    #     a node built by hand may omit an optional child, and is then the node without it
+    lacking_fails, lenient = False, False
+    pa = PathAnalysis(prog, fn2)
+    for n in walk_own(fn2.node):
+        if not (isinstance(n, ast.Return) and n.value is not None and norm(n.value) == "()"):
+            continue
+        loop = parent(n)
+        while loop is not None and not isinstance(loop, ast.For):
+            loop = parent(loop)
+        if loop is None or canon(loop.iter) not in ("<t>", "<t>.keys()"):
+            continue
+        key = norm(loop.target)
+        worlds = pa.worlds_at(n)
+        if not worlds:
+            continue
+        # facts on the way to this `return ()`, read off the path condition (however the tests are nested or combined)
+        strict, soft = True, True
+        for w in worlds:
+            lits = {(canon_text(plain(f[1])), f[2]) for f in w.facts if f[0] == "lit"}
+            if (f"in({key},<n>)", False) not in lits:
+                strict = soft = False
+                break
+            about_value = {l for l in lits if f"<t>[{key}]" in l[0]}
+            allowed = {(f"is(<t>[{key}],None)", False), (f"eq([],<t>[{key}])", False), (f"eq(<t>[{key}],[])", False), (f"<t>[{key}]", True)}
+            if about_value:
+                strict = False
+                if not about_value <= allowed:
+                    soft = False
+        if strict:
+            lacking_fails = True
+        elif soft:
+            lacking_fails = lenient = True
+    res.decide(lacking_fails, "R12.3", fn2.loc(), fn2.fq, "template field absent on node",
+               ("fails the match" + (" unless the template has the empty child (None, []) there" if lenient else "")) if lacking_fails else
+               "a template field that the node lacks no longer fails the match")
+    # (b) every other template field outside `ignore` is compared with the same field of the node
     gens = [n for n in walk_own(fn2.node) if isinstance(n, ast.GeneratorExp)]
     ok = False
     detail = "comparison generator not found"
     for g in gens:
         if isinstance(g.elt, ast.Call) and isinstance(g.elt.func, ast.Name) and g.elt.func.id == "match_template":
             gen = g.generators[0]
-            it = norm(gen.iter).replace(" ", "")
-            ok = not gen.ifs and it in ("t_vars.keys()-ignore", "t_vars-ignore") or (it == "t_vars" and len(gen.ifs) == 1 and norm(gen.ifs[0]).replace(" ", "") in ("keynotinignore",))
-            a0, a1 = [norm(a) for a in g.elt.args[:2]]
+            it = canon(gen.iter)
             key = norm(gen.target)
-            ok = ok and a0 == f"n_vars[{key}]" and a1 == f"t_vars[{key}]"
-            detail = ("every template field outside `ignore` is matched against the same field of the node" if ok else
+            ifs = sorted(canon(c) for c in gen.ifs)
+            present = f"{key}in<n>"
+            if it in ("<t>.keys()-<ig>", "<t>-<ig>"):
+                ok = ifs == [] or (ifs == [present] and lacking_fails)
+            elif it in ("<t>", "<t>.keys()"):
+                ok = ifs == [f"{key}notin<ig>"] or (ifs == sorted([f"{key}notin<ig>", present]) and lacking_fails)
+            a0, a1 = [canon(a) for a in g.elt.args[:2]]
+            ok = ok and a0 == f"<n>[{key}]" and a1 == f"<t>[{key}]"
+            detail = ("every template field outside `ignore` is matched against the same field of the node"
+                      + (" (fields the node lacks were settled before)" if present in ifs else "") if ok else
                       f"fields compared: for {key} in {norm(gen.iter)} {[norm(c) for c in gen.ifs]} -> match_template({a0}, {a1})")
     res.decide(ok, "R12.3", fn2.loc(), fn2.fq, "field-wise comparison", detail)
-    # a template field missing on the node fails the match
-    missing = [n for n in walk_own(fn2.node) if isinstance(n, ast.If) and "not in n_vars" in norm(n.test) and n.body and isinstance(n.body[-1], ast.Return)
-               and norm(n.body[-1].value) == "()"]
-    res.decide(bool(missing), "R12.3", fn2.loc(), fn2.fq, "template field absent on node",
-               "fails the match" if missing else "a template field that the node lacks no longer fails the match")
 
 
 # ------------------------------------------------------------------------------------------------ R12.4
@@ -456,6 +520,17 @@ def _r12_4(prog: Program, res: Result) -> None:
 NON_SEMANTIC_FIELDS = {"type_comment"}      # comments; every other field of a node is part of the program
 
 
+def _tests_value_of(test: ast.AST, field: str) -> bool:
+    """The truth of `test` is the truth of the VALUE of the attribute `field` (not of its existence)."""
+    if isinstance(test, ast.Attribute):
+        return test.attr == field
+    if isinstance(test, ast.Call) and norm(test.func) == "getattr" and len(test.args) == 3:
+        return isinstance(test.args[1], ast.Constant) and test.args[1].value == field
+    if isinstance(test, ast.BoolOp):
+        return any(_tests_value_of(v, field) for v in test.values)
+    return False
+
+
 def _r12_6(prog: Program, res: Result) -> None:
     """The template compiler rebuilds some node kinds by hand (visit_FunctionDef, visit_ClassDef, ...).  A field of the
     node class that is not passed to the constructor is ABSENT from the compiled template, and the matcher only compares
@@ -475,10 +550,19 @@ def _r12_6(prog: Program, res: Result) -> None:
             continue
         n += 1
         dict_keys = {}
+        by_value = {}
         for a in walk_own(fn.node):
             if isinstance(a, ast.Assign) and isinstance(a.targets[0], ast.Subscript) and isinstance(a.targets[0].value, ast.Name) \
                     and isinstance(a.targets[0].slice, ast.Constant):
-                dict_keys.setdefault(a.targets[0].value.id, set()).add(str(a.targets[0].slice.value))
+                key = str(a.targets[0].slice.value)
+                dict_keys.setdefault(a.targets[0].value.id, set()).add(key)
+                # the entry is made under a condition: a test of the field's VALUE (`if node.F:`, `if getattr(node, "F", None):`)
+                # leaves the field out when it is empty - and an empty list is a value the matcher has to compare
+                p_ = parent(a)
+                while p_ is not None and p_ is not fn.node:
+                    if isinstance(p_, ast.If) and _tests_value_of(p_.test, key):
+                        by_value[key] = p_
+                    p_ = parent(p_)
         for c in ctor:
             passed = {k.arg for k in c.keywords if k.arg}
             for k in c.keywords:
@@ -486,6 +570,10 @@ def _r12_6(prog: Program, res: Result) -> None:
                     passed |= dict_keys.get(k.value.id, set())
             passed |= set(cls._fields[:len(c.args)])
             missing = [f for f in cls._fields if f not in passed and f not in NON_SEMANTIC_FIELDS]
+            for f in sorted(set(by_value) & passed):
+                res.bad("R12.6", fn.loc(by_value[f]), fn.fq, f"ast.{kind}(..) # the field {f} is carried over only when it is not empty",
+                        f"`{short(by_value[f].test)}` is false for an empty {f}, the compiled template then has no such field and the matcher "
+                        f"compares nothing there: the pattern without {f} matches code with it (`def f(x)` matches `def f[T](x)`)")
             res.decide(not missing, "R12.6", fn.loc(c), fn.fq, f"ast.{kind}(..) rebuilt with fields {sorted(passed)}",
                        f"all fields of ast.{kind} are carried over" if not missing else
                        f"field(s) {missing} of ast.{kind} are not carried over into the compiled template: the matcher never compares them, so patterns match nodes "
@@ -654,6 +742,9 @@ VARIANTS = [
     Variant("inline-permutations-rename-merged", "SILENT", "core",
             "    permutations = _iter_template_permutations(template, len(nodes))\n\n    for permutation in permutations:\n        matches = (\n            match_template(child, template_child, ignore=ignore)\n            for child, template_child in zip(nodes, permutation)\n        )\n        merged = merge_matches(permutation, matches)\n        if merged:\n            return merged\n",
             "    for permutation in _iter_template_permutations(template, len(nodes)):\n        matches = [\n            match_template(child, template_child, ignore=ignore)\n            for child, template_child in zip(nodes, permutation)\n        ]\n        result = merge_matches(permutation, matches)\n        if not result:\n            continue\n        return result\n"),
+    Variant("empty-type-params-not-carried-over", "FIRE", "core", '        if hasattr(node, "type_params"):  # class A[T]', '        if getattr(node, "type_params", None):  # class A[T]', "R12.6"),
+    Variant("absent-template-field-never-fails", "FIRE", "core", "        if k not in n_vars and not (t_vars[k] is None or t_vars[k] == []):\n", "        if False and k not in n_vars:\n", "R12.3"),
+    Variant("absent-field-test-spelled-with-keys", "SILENT", "core", "    for k in t_vars:\n        if k in ignore:", "    for k in t_vars.keys():\n        if k in ignore:", "R12.3"),
     Variant("zero-or-one-needs-one", "FIRE", "core", "            node_counts[(i, node.template)] = (0, 1)\n", "            node_counts[(i, node.template)] = (1, 1)\n", "R12.1"),
     Variant("star-plus-regexes-swapped", "FIRE", "core",
             "        **{name[2:-3]: ZeroOrMany(object) for name in re.findall(r\"\\{\\{\\w+\\*\\}\\}\", source)},\n        **{name[2:-3]: OneOrMany(object) for name in re.findall(r\"\\{\\{\\w+\\+\\}\\}\", source)},",
